@@ -151,6 +151,7 @@ func (q *c24Req) ensureCL(g *vkit.Rand) int {
 var c24TENames = []string{"Transfer-Encoding :", "Transfer-Encoding\t:", "Transfer-Encoding  :", " Transfer-Encoding:", "\tTransfer-Encoding:", "Transfer_Encoding:", "Transfer-Encoding\x00:", "\x00Transfer-Encoding:",
 	"Transfer-Encoding\x7f:", "Transfer-Encoding\x80:", "Transfer Encoding:", "Transfer-Encoding\r:", "Transfer-Encoding\x0b:", "X: y\r\n Transfer-Encoding:", "(Transfer-Encoding):", "Transfer-Encoding,:"}
 var c24TEValues = []string{"\tchunked", " chunked ", "chunked, identity", "identity, chunked", "identity", "gzip", "gzip, chunked", "chunked, gzip", "chunked, chunked", "chunked;q=1", "\"chunked\"",
+	"chun\xe2\x84\xaaed", "CHUN\xe2\x84\xaaED", "\xc5\xbfhunked", // Unicode code points whose ToLower/fold is an ASCII letter (Kelvin sign, long s): not the token "chunked"
 	"\x0bchunked", "chunked\x0b", "\x0cchunked", "\xc2\xa0chunked", "chunked\xc2\x85", "\x85chunked", ",chunked", "chunked,", ", ,chunked", "x-chunked", "chunke", "chunked\r", "\rchunked", "chunked\x00", "\x00chunked",
 	"chunk ed", "", " ", "chunked identity", "identity,chunked", "chunked ,identity", "CHUNKED, IDENTITY", "compress, deflate, chunked", "chunked\r\n identity", "\r\n chunked", "\r\n\tchunked"}
 var c24CLValues = []string{"+%d", "-0", "-%d", "%d ", " %d", "\t%d\t", "0%d", "000000000000000000000%d", "%d, %d", "%d,%d", "%d, 6", "7, %d", "0x%d", "%d.0", "%de0", "", " ", "%d\r", "\x0b%d", "%d\x0c", "\xc2\xa0%d", "%d\xc2\x85",
@@ -379,6 +380,7 @@ var c24Corpus = []string{
 	"POST / HTTP/1.1\r\nHost: h\r\nTransfer-Encoding: chunked\r\nTransfer-Encoding: chunked\r\n\r\n5\r\nhello\r\n0\r\n\r\n",
 	"POST / HTTP/1.1\r\nHost: h\r\nTransfer-Encoding: chunked\r\nTransfer-Encoding: identity\r\n\r\n5\r\nhello\r\n0\r\n\r\n",
 	"POST / HTTP/1.1\r\nHost: h\r\nTransfer-Encoding: \x0bchunked\r\n\r\n5\r\nhello\r\n0\r\n\r\n",
+	"POST / HTTP/1.1\r\nHost: h\r\nContent-Length: 4\r\nTransfer-Encoding: chun\xe2\x84\xaaed\r\n\r\n5\r\nhello\r\n0\r\n\r\n",
 	"POST / HTTP/1.1\r\nHost: h\r\nTransfer-Encoding: \xc2\xa0chunked\r\n\r\n5\r\nhello\r\n0\r\n\r\n",
 	"POST / HTTP/1.1\r\nHost: h\r\nTransfer-Encoding: chunked\r\r\n\r\n5\r\nhello\r\n0\r\n\r\n",
 	"POST / HTTP/1.1\r\nHost: h\r\nTransfer-Encoding: chunked\r\nContent-Length: 3\r\n\r\n5\r\nhello\r\n0\r\n\r\n",
